@@ -345,6 +345,96 @@ def project_stages(d, seeds, subst):
     return snaps
 
 
+GEN_SRC = """from jug import Task, TaskGenerator, barrier
+from jug.mapreduce import map as jug_map, currymap, mapreduce
+
+GEN = %(tag)r
+
+
+def plain(x):
+    return (GEN, x)
+
+
+def add(a, b):
+    return a + b
+
+
+for _i in range(%(count)d):
+    def _f(x, y=0, _i=_i):
+        return (GEN, _i, x, y)
+    _f.__name__ = _f.__qualname__ = '%(prefix)s%%d' %% _i
+    globals()[_f.__name__] = TaskGenerator(_f)
+del _f, _i
+gens = [globals()['%(prefix)s%%d' %% i] for i in range(%(count)d)]
+maps = [jug_map(g, list(range(%(n)d + i %% 3)), map_step=2 + i %% 2) for i, g in enumerate(gens)]
+curried = [t for g in gens[:6] for t in currymap(g, [(1, 2), (3, 4), (5, 6)], map_step=2)]
+reduced = [mapreduce(add, g, list(range(%(n)d)), map_step=2, reduce_step=2) for g in gens[:6]]
+direct = [g(%(n)d) for g in gens[:4]]
+plain_map = jug_map(plain, list(range(%(n)d)), map_step=2)
+%(tail)s
+"""
+
+
+def generation_sources(subst):
+    """what a process that keeps re-loading jugfile code sees: generations of ONE module name whose task generators come and go"""
+    n = subst['n']
+    return [('g1', GEN_SRC % dict(tag='one', count=40, prefix='work', n=n, tail='')),
+            ('g2', GEN_SRC % dict(tag='two', count=40, prefix='job', n=n, tail='barrier()\nafter = Task(plain, 1)')),
+            ('g3', GEN_SRC % dict(tag='three', count=25, prefix='work', n=n + 1, tail='')),
+            ('g4', GEN_SRC % dict(tag='one', count=40, prefix='work', n=n, tail='')),          # the first generation again
+            ('g5', GEN_SRC % dict(tag='five', count=60, prefix='step', n=n, tail='barrier()'))]
+
+
+def generation_section(ck, d, seeds, subst):
+    """identifiers do not depend on what the process loaded / hashed / freed before: every generation's identifiers in the long-lived
+    interpreter equal those of a fresh interpreter that loads only that generation"""
+    import os
+    srcs = generation_sources(subst)
+    for name, src in srcs:
+        os.makedirs(os.path.join(d, name))
+        with open(os.path.join(d, name, 'flow.py'), 'w') as fh:
+            fh.write(src)
+    dirs = [nm for nm, _ in srcs]
+    plans = [(seeds[0], 0, {'steps': [{'op': 'generations', 'dirs': dirs, 'jugfile': 'flow.py', 'reloads': 2}]}),
+             (seeds[1], 1, {'steps': [{'op': 'generations', 'dirs': dirs[::-1] + dirs, 'jugfile': 'flow.py', 'reloads': 1}]})]
+    plans += [(seeds[(k + 2) % len(seeds)], k, {'steps': [{'op': 'generations', 'dirs': [nm], 'jugfile': 'flow.py', 'reloads': 1}]})
+              for k, nm in enumerate(dirs)]
+    outs = run_plans(d, plans)
+    fresh = {}
+    for nm, o in zip(dirs, outs[2:]):
+        rec = o[0]['records'][0] if not o[0].get('error') else {'error': o[0]['error']}
+        if rec.get('error') or len(rec.get('objects', {})) < 20:
+            ck.broken.append('C07 generations: a fresh interpreter could not load %s: %r' % (nm, rec.get('error') or sorted(rec.get('objects', {}))[:5]))
+            return
+        fresh[nm] = rec['objects']
+    if fresh['g1'] != fresh['g4'] or fresh['g1'] == fresh['g3']:
+        ck.broken.append('C07 generations: generated sources are not as intended')
+    reported = 0
+    for pi, o in enumerate(outs[:2]):
+        if o[0].get('error'):
+            ck.broken.append('C07 generations: %s' % o[0]['error'][:300])
+            continue
+        for rec in o[0]['records']:
+            ck.case_total += 1
+            ck.count('generations:loads in a long-lived interpreter')
+            ck.distinct(('generation', pi, rec['dir'], rec['reload'], rec['nth_load_in_process']), True)
+            if rec.get('error'):
+                ck.broken.append('C07 generations: load of %s failed: %s' % (rec['dir'], rec['error'][:300]))
+                continue
+            want = fresh[rec['dir']]
+            bad = [(k, want.get(k), rec['objects'].get(k)) for k in sorted(set(want) | set(rec['objects'])) if want.get(k) != rec['objects'].get(k)]
+            if bad:
+                reported += 1
+                if reported > 3:
+                    ck.count('generations:differs(not reported)')
+                    continue
+                ck.violation({'kind': 'impl-violation',
+                              'what': 'identifiers computed by an interpreter that loaded (and freed) other jugfile code before differ from those of a fresh interpreter',
+                              'generations': dict(srcs), 'order_of_loads': plans[pi][2]['steps'][0]['dirs'], 'reloads': plans[pi][2]['steps'][0]['reloads'],
+                              'this_load': {'dir': rec['dir'], 'nth_load_in_process': rec['nth_load_in_process']},
+                              'objects(name, fresh interpreter, this interpreter)': bad[:4], 'number_of_differing_objects': len(bad), 'seeds': seeds})
+
+
 def load_section(ck, seeds):
     """loading the same jugfile twice - in the same or in another process, by whatever path, whatever the results directory holds and
     whatever the process environment is - yields the same names and identifiers"""
@@ -359,6 +449,7 @@ def load_section(ck, seeds):
                 fh.write(src % subst)
         try:
             snaps = project_stages(d, seeds, subst)
+            generation_section(ck, d, seeds, subst)
         except RuntimeError as e:
             ck.broken.append('C07 load section: %s' % str(e)[:400])
             return
@@ -537,6 +628,25 @@ def order_dependence(ck, specs, results, seeds):
 
 
 def replay(obj):
+    if 'generations' in obj:
+        import os
+        from . import jugrun
+        with jugrun.scratch_dir('c07load') as d:
+            for nm, src in obj['generations'].items():
+                os.makedirs(os.path.join(d, nm))
+                with open(os.path.join(d, nm, 'flow.py'), 'w') as fh:
+                    fh.write(src)
+            which = obj['this_load']['dir']
+            outs = run_plans(d, [(1, 0, {'steps': [{'op': 'generations', 'dirs': obj['order_of_loads'], 'jugfile': 'flow.py', 'reloads': obj.get('reloads', 1)}]}),
+                                 (1, 0, {'steps': [{'op': 'generations', 'dirs': [which], 'jugfile': 'flow.py', 'reloads': 1}]})])
+        want = outs[1][0]['records'][0]['objects']
+        rc = 0
+        for rec in outs[0][0]['records']:
+            if rec['dir'] == which:
+                nbad = sum(1 for k in want if rec.get('objects', {}).get(k) != want[k])
+                print('load %2d (%s): %d of %d objects differ from the fresh interpreter' % (rec['nth_load_in_process'], which, nbad, len(want)))
+                rc = rc or (1 if nbad else 0)
+        return rc
     if 'project_source' in obj:
         from . import jugrun
         global FLOW
